@@ -1,6 +1,7 @@
 CONSTANTS
   Comp = {"a", "b", "c"}
   MaxDepth = 2
+  BatchMembers <- MCBatch
   MaxTape = 400
   Chunks = {"c1", "c2"}
   AttrVals = {1, 2}
